@@ -542,12 +542,57 @@ def order_rule(ctx, P):
         idxs = re.findall(r"bv\[(\d)\]", rhs)
         ok = m is not None and idxs == [w, w] and "~" in rhs
         ctx.check(o, ok, key(h, "sub:%s" % lhs), h.where(i), "context word %s is computed as `%s`: each word must be masked with the same word of the other set" % (lhs, rhs))
+        # the set that shrinks is the function's own copy of the new entry's set, or the set of an entry of the
+        # frame list being scanned - never memory of the caller (for a null transition that is the permanent
+        # entry being propagated, which then loses contexts its own state's words still need)
+        base = m.group(1) if m else ""
+        prm = [pr for pr in h.params if pr[0] == base]
+        own = (prm and "*" not in prm[0][3]) or re.match(r"^\w+->rc$", base) is not None and not [pr for pr in h.params if pr[0] == base.split("->")[0]]
+        ctx.check(o, bool(own), key(h, "sub-target:%s" % lhs), h.where(i), "the context subtraction writes `%s`, which is the caller's memory (a set passed by reference): the set of the entry a null transition propagates is edited in place" % lhs)
     rets = [r for r in h.find("Return") if not h.ch(r)]
     dom = [r for r in rets if paths.guarded(h, r, lambda fn, cc, pol: pol and "FSG_PNODE_CTXT_SUB" in " ".join(fn.mac(fn.strip(cc))) or (pol and "rc.bv" in fn.canon(cc, subst=False)))]
     ctx.check(o, len(dom) == 1 and paths.guarded(h, dom[0], lambda fn, cc, pol: paths.rel(fn, cc, pol, subst=False) == ("score", "<=", "entry->score")), key(h, "dominated-drop"), h.where(h.root), "a new entry is dropped without (existing entry not worse && context set exhausted)")
     fr = h.calls("ckd_free")
     for c in fr:
         ctx.check(o, paths.guarded(h, c, lambda fn, cc, pol: pol and "entry->rc" in fn.canon(cc, subst=False) and "== 0" in fn.canon(cc, subst=False).replace("(0 == ", "== 0 ").replace(" == 0)", " == 0")) or paths.guarded(h, c, lambda fn, cc, pol: pol and "bv" in fn.canon(cc, subst=False)), key(h, "prune"), h.where(c), "an existing entry is pruned although its context set is not empty")
+
+
+def backoff_rule(ctx, P):
+    """which model a triphone missing from the model definition gets is part of the acoustic model: the word
+    positions are tried in a fixed order"""
+    r = ctx.rule("ORDER.backoff", "bin_mdef_phone_id_nearest looks a triphone up in the requested word position first and then, in a loop from position 0 upwards over all positions but the requested one, in the others - with the given contexts, then with the silence contexts; the position handed to the lookup is the requested one resp. the loop counter itself", floor=4)
+    f = P.fn("bin_mdef_phone_id_nearest", "bin_mdef.c")
+    ctx.touch(f)
+    pos = f.params[4][0]
+    cs = f.calls("bin_mdef_phone_id")
+    if len(cs) < 2:
+        raise AnalysisIncomplete("bin_mdef_phone_id_nearest: lookups not found (%d)" % len(cs))
+    exact, looped = [], []
+    for c in cs:
+        lp = f.enclosing(c, ("For", "While", "Do"))
+        a4 = f.canon(f.strip(f.args(c)[4]), subst=False)
+        if lp is None:
+            exact.append(c)
+            ctx.check(r, a4 == pos, key(f, "exact-position@%d" % len(exact)), f.where(c), "the first lookup uses position `%s`, not the requested one" % a4)
+            continue
+        looped.append(c)
+        n_ = len(looped)
+        # the loop counts a position from 0 to the number of positions; the lookup gets the counter, skipping the requested position
+        cond = f.ch(lp)[{"While": 0, "For": 1, "Do": 1}[f.k(lp)]]
+        rr = paths.rel(f, cond, True, subst=False)
+        v = rr[0] if rr and rr[1] == "<" else None
+        okv = v is not None and rr[2] in ("4", "N_WORD_POSN") and a4 == v
+        if okv:
+            sts = [s_ for s_ in paths.stores(f) if s_["path"] == v and (s_["node"] in set(f.walk(lp)))]
+            starts = [s_ for s_ in sts if s_["op"] == "=" and s_["rhs"] is not None]
+            steps = [s_ for s_ in sts if s_["op"] in ("++", "+=")]
+            okv = len(steps) == 1 and (steps[0]["op"] == "++" or paths.is_const(f, steps[0]["rhs"], 1))
+            if f.k(lp) == "For":
+                okv = okv and len(starts) == 1 and paths.is_const(f, starts[0]["rhs"], 0)
+        ctx.check(r, bool(okv), key(f, "ascending@%d" % n_), f.where(c), "the back-off lookup is handed `%s`: the other positions are not tried in ascending order by the loop counter (%s)" % (a4, rr))
+        ctx.check(r, v is not None and paths.guarded(f, c, lambda fn, cc, pol, v=v: (lambda q: q is not None and q[1] == "==" and {q[0], q[2]} == {v, pos})(paths.rel(fn, cc, not pol, subst=False))), key(f, "skips-requested@%d" % n_), f.where(c), "the back-off loop does not skip the requested position")
+        ctx.check(r, any(f.canon(a_, subst=False) == f.canon(b_, subst=False) for e_ in exact for a_, b_ in [(f.args(e_)[2], f.args(c)[2])]) and any(paths.always_before(f, c, lambda e, e_=e_: e == e_) for e_ in exact if [f.canon(x, subst=False) for x in f.args(e_)[1:4]] == [f.canon(x, subst=False) for x in f.args(c)[1:4]]), key(f, "exact-first@%d" % n_), f.where(c), "the back-off loop is not preceded by the lookup in the requested position with the same contexts")
+    ctx.check(r, len(exact) >= 1 and len(looped) >= 1, key(f, "shape"), f.where(f.root), "expected exact lookups followed by back-off loops (found %d / %d)" % (len(exact), len(looped)))
 
 
 # ---------------------------------------------------------------------------------- ID SPACES
@@ -623,6 +668,7 @@ def run(ctx):
     vit_rule(ctx, P)
     generic_evaluator(ctx, P)
     ctx_rule(ctx, P)
+    backoff_rule(ctx, P)
     once_rule(ctx, P)
     role_rule(ctx, P)
     idspace_rule(ctx, P)
